@@ -37,6 +37,13 @@ def directed():
                      "3": {"kind": "func", "script": L(Y, Y, R)}}, [1]))
     out.append(base({"1": {"kind": "func", "script": [{"es": [], "out": ["y", None]}, {"es": [["rem", 0, [2, 2]]], "out": ["y", None]}, {"es": [], "out": ["r", "true"]}]},
                      "2": {"kind": "doer", "script": L(Y, Y, Y, Y, Y)}}, [1, 2]))
+    # D43 witness: 1 extends the suspended always-DoDoer 2 with 4, whose enter removes 2 from the root
+    Yk = lambda es=None: {"es": es or [], "out": ["y", None]}
+    out.append({"tock": 0.25, "limit": 0.75, "tyme": 0.0, "doers": [1, 2], "mode": "do", "defs": {
+        "1": {"kind": "func", "script": [Yk(), Yk([["ext", 2, [4]]]), Yk(), Yk(), Yk()]},
+        "2": {"kind": "nest", "tock": 0.0, "always": True, "kids": [3]},
+        "3": {"kind": "doer", "script": [Yk(), Yk(), Yk(), Yk(), Yk()]},
+        "4": {"kind": "func", "script": [Yk([["rem", 0, [2]]]), Yk(), Yk(), Yk()]}}})
     return out
 
 
@@ -85,7 +92,21 @@ def oracle(case, obs):
     return None
 
 
+def _step0_remove(case):
+    return any(d["kind"] != "nest" and d["script"] and any(e[0] == "rem" for e in d["script"][0]["es"])
+               for d in case["defs"].values())
+
+
 def classify(case, obs, why):
+    # D43: a new doer whose enter (inside extend()) removes/closes the very scheduler it is being added to
+    # is left suspended in the dead scheduler's deque: entered, never exited
+    if _step0_remove(case) and ("life" in why or "not exited" in why):
+        tr = obs["trace"]
+        bad = [i for i in (int(k) for k in case["defs"])
+               if any(not sc.wf_life(l) for l in sc.split_lives(sc.lives(tr, i)))]
+        if bad and all(sc.split_lives(sc.lives(tr, i))[-1] == ["Enter"] or sc.split_lives(sc.lives(tr, i))[-1][0] == "Enter" for i in bad):
+            return "D43"
+
     # D40-kbd: a KeyboardInterrupt raised inside a doer skips that doer's abort context (only exit runs)
     if "life" in why and sc.has_kbd(case):
         tr = obs["trace"]
